@@ -274,6 +274,12 @@ void error_handler (const char *err) {
 
   in_error = 0;
 
+  /* The error is delivered to a driver-level handler, not to an LPC catch: the
+   * "uncatchable" marks (eval cost, stack full) have done their job. Left set, they
+   * would make the next catch() in an unrelated evaluation refuse an ordinary error.
+   */
+  clear_error_state ();
+
   if (current_error_context)
     longjmp (current_error_context->context, 1);
   fatal ("failed longjmp() or no error context for error.");
